@@ -425,6 +425,12 @@ def main(argv=None):
             print("HARNESS ERROR in %s: replay failed for %s: %s" % (check.ID, path, exc))
             status = 2
             continue
+        if not (r1["observed"] == r2["observed"] == ex["observed"]) and getattr(check, "NONDETERMINISM_IS_VIOLATION", False):
+            print("  [%s] %d instance(s); first: %s" % (sig, b["count"], ex["msg"][:600]))
+            print("  (the observation differs between identical runs in fresh interpreters - for this property that is itself the violation)")
+            print("VIOLATION property=%s replay=%s" % (check.ID, path))
+            confirmed = True
+            continue
         if not (r1["observed"] == r2["observed"] == ex["observed"]):
             print("NONDETERMINISM in %s: replay of %s differs (explorer=%s, run1=%s, run2=%s)"
                   % (check.ID, path, json.dumps(ex["observed"])[:300], json.dumps(r1["observed"])[:300],
